@@ -430,6 +430,23 @@ var Scenarios = []Directed{
 	}},
 	{"mutation_matrix", []string{"C03"}, fam(0), func(s *Script) { MutationMatrix(s, false) }},
 	{"mutation_matrix_full", []string{"C03"}, fam(0), func(s *Script) { MutationMatrix(s, true) }},
+	{"limiter_block", []string{"C06", "C05"}, fam(3), func(s *Script) {
+		// four equal validators (stake limiter active): staking and unstaking against validators inside blocks
+		s.Blocks(3, allHdr)
+		s.Begin(allHdr)
+		s.expect(OK(s.Stake(5, 1, "10e18")), "a5 delegates 10 to validator a1")
+		s.expect(OK(s.Stake(6, 2, "10e18")), "a6 delegates 10 to validator a2")
+		s.End()
+		s.Begin(allHdr)
+		s.expect(OK(s.Stake(5, 1, "5e18")), "a5 delegates 5 more to a1")
+		s.expect(OK(s.Transfer(5, 6, "1e18")), "a transfer")
+		ids := s.StakeIDs(6, 2)
+		if len(ids) > 0 {
+			s.expect(OK(s.Unstake(6, 2, ids[0])), "a6 releases its stake")
+		}
+		s.End()
+		s.Blocks(2, allHdr)
+	}},
 	{"setdoc_and_accounts", []string{"C05", "C19", "C04"}, fam(0), func(s *Script) {
 		s.Blocks(2, allHdr)
 		s.Begin(allHdr)
@@ -490,6 +507,7 @@ func RunDirected(names []string, seed int64, tmp string, emit func(J), evm bool)
 			emit(J{"ev": "Note", "scenario": d.Name, "unexpected": "scenario aborted: " + pm})
 		}
 		out[d.Name] = s.Sc
+		s.R.Close()
 		_ = os.RemoveAll(root)
 	}
 	return out, nil
